@@ -68,16 +68,41 @@ def format_dialect_entry_points(rng, rec):
             reg = reg.replace("bytes.hex", "(lambda v: bytes(v).hex())").replace("bytes.fromhex", "bytearray.fromhex")
         lazy = "        lazy_compilation = True\n" if rng.random() < 0.3 else ""
         fam.exec_src(f"class HexD(Dialect):\n    serialization_strategy = {{{tkey}: {reg}}}\n"
-                     f"@dataclass\nclass MP(DataClassMessagePackMixin):\n    b: {tkey}\n    n: int = 0\n    bs: List[{tkey}] = field(default_factory=list)\n"
+                     f"@dataclass\nclass MP(DataClassMessagePackMixin):\n    b: {tkey}\n    n: int = 0\n    bs: List[{tkey}] = field(default_factory=list)\n    nxt: Optional[Self] = None\n"
                      f"    class Config(BaseConfig):\n        code_generation_options = [ADD_DIALECT_SUPPORT]\n{lazy}"
-                     f"@dataclass\nclass MPC(DataClassMessagePackMixin):\n    b: {tkey}\n    n: int = 0\n    bs: List[{tkey}] = field(default_factory=list)\n"
+                     f"@dataclass\nclass MPC(DataClassMessagePackMixin):\n    b: {tkey}\n    n: int = 0\n    bs: List[{tkey}] = field(default_factory=list)\n    nxt: Optional[Self] = None\n"
                      f"    class Config(BaseConfig):\n        dialect = HexD\n{lazy}"
-                     f"@dataclass\nclass PL:\n    b: {tkey}\n    n: int = 0\n    bs: List[{tkey}] = field(default_factory=list)\n")
+                     f"@dataclass\nclass PL:\n    b: {tkey}\n    n: int = 0\n    bs: List[{tkey}] = field(default_factory=list)\n    nxt: Optional[Self] = None\n")
         m = fam.module
         mk = bytes if tkey == "bytes" else bytearray
         val = dict(b=mk(b"\xde\xad"), n=1, bs=[mk(b"\x00\x01")])
+        # without any dialect first or last: the mixin method, the codec object and the one-shot function write the same
+        # document, also for the nodes below a Self-typed member
+        from mashumaro.codecs.msgpack import encode as mp_encode
+        def nodialect():
+            rec.evaluation()
+            obj = m.MP(**val, nxt=m.MP(b=mk(b"\x01"), nxt=m.MP(b=mk(b""))))
+            nd = {}
+            for name, fn in (("mixin", lambda: obj.to_msgpack()), ("codec", lambda: MessagePackEncoder(m.MP).encode(obj)), ("function", lambda: mp_encode(obj, m.MP)),
+                             ("mixin(encoder=)", lambda: msgpack.packb(obj.to_msgpack(encoder=lambda d: d), use_bin_type=True))):
+                try:
+                    nd[name] = ("ok", msgpack.unpackb(fn(), raw=False))
+                except Exception as e:
+                    nd[name] = ("raise", f"{type(e).__name__}: {e}"[:120])
+            def raw_below(x):
+                return x is None or (isinstance(x.get("b"), bytes) and raw_below(x.get("nxt")))
+            if len({repr(v) for v in nd.values()}) == 1 and nd["mixin"][0] == "ok" and raw_below(nd["mixin"][1]):
+                rec.count("format_dialect_entry_points_agree")
+            else:
+                rec.violation("format-dialect:plain-entry-points-disagree-or-lose-the-format-below-Self", {"source": "".join(fam.sources[1:]), "documents": {k: common.short(v, 300) for k, v in nd.items()}},
+                              {"scenario": "format-dialect", "way": "none"})
+        before = rng.random() < 0.5
+        if before:
+            nodialect()
         docs = {}
         routes = [("mixin(dialect=)", lambda: m.MP(**val).to_msgpack(dialect=m.HexD)), ("Config.dialect", lambda: m.MPC(**val).to_msgpack()),
+                  # a custom encoder together with the dialect (possibly on the very first call for that dialect)
+                  ("mixin(encoder=, dialect=)", lambda: msgpack.packb(m.MP(**val).to_msgpack(encoder=lambda d: {"wrapped": d}, dialect=m.HexD)["wrapped"], use_bin_type=True)),
                   ("codec(default_dialect=)", lambda: MessagePackEncoder(m.MP, default_dialect=m.HexD).encode(m.MP(**val))),
                   ("codec-plain-class(default_dialect=)", lambda: MessagePackEncoder(m.PL, default_dialect=m.HexD).encode(m.PL(**val)))]
         rng.shuffle(routes)
@@ -117,6 +142,44 @@ def format_dialect_entry_points(rng, rec):
         else:
             rec.violation("format-dialect:decode-entry-points-disagree", dict(det, outcomes={k: common.short(v, 200) for k, v in outs.items()}, expected=common.short(exp, 200)),
                           {"scenario": "format-dialect", "way": way})
+        if not before:
+            nodialect()
+    finally:
+        fam.dispose()
+
+
+def two_hierarchies_in_one_field(rng, rec):
+    """two tagged hierarchies with EQUAL discriminator settings and overlapping tags inside one member: the mixin method, codecs for
+    the mixin class, for its plain twin and for the bare shape all keep the two registries apart."""
+    from mashumaro.codecs.basic import BasicDecoder
+    fam = Family("c15h")
+    try:
+        D = "Discriminator(field='k', include_subtypes=True)"
+        fam.exec_src("@dataclass\nclass Shape:\n    pass\n@dataclass\nclass Circle(Shape):\n    k = 'c'\n    r: int = 0\n@dataclass\nclass Square(Shape):\n    k = 's'\n"
+                     "@dataclass\nclass Style:\n    pass\n@dataclass\nclass Crisp(Style):\n    k = 'c'\n    w: int = 0\n@dataclass\nclass Soft(Style):\n    k = 's'\n"
+                     f"Pair = Tuple[Annotated[Shape, {D}], Annotated[Style, {D}]]\n"
+                     "@dataclass\nclass HM(DataClassDictMixin):\n    items: List[Pair]\n    one: Optional[Pair] = None\n"
+                     "@dataclass\nclass HP:\n    items: List[Pair]\n    one: Optional[Pair] = None\n")
+        m = fam.module
+        doc = {"items": [[{"k": "c", "r": 1}, {"k": "c", "w": 2}], [{"k": "s"}, {"k": "s"}]], "one": [{"k": "s"}, {"k": "c"}]}
+        want = [("Circle", "Crisp"), ("Square", "Soft"), ("Square", "Crisp")]
+        routes = [("mixin", lambda: m.HM.from_dict(doc)), ("codec(mixin class)", lambda: BasicDecoder(m.HM).decode(doc)), ("codec(plain twin)", lambda: BasicDecoder(m.HP).decode(doc)),
+                  ("codec(shape)", lambda: m.HP(BasicDecoder(eval("List[Pair]", m.__dict__)).decode(doc["items"]), BasicDecoder(eval("Pair", m.__dict__)).decode(doc["one"])))]
+        rng.shuffle(routes)
+        for name, fn in routes:
+            rec.evaluation()
+            try:
+                r = fn()
+                got = [(type(a).__name__, type(b).__name__) for a, b in list(r.items) + [r.one]]
+            except Exception as e:
+                got = f"{type(e).__name__}: {e}"[:200]
+            if got == want:
+                rec.count("decode_all_agree")
+                rec.count("two_hierarchies_one_field_ok")
+                rec.nontrivial(("two-hierarchies", name, tuple(r[0] for r in routes)))
+            else:
+                rec.violation(f"two-hierarchies-in-one-field:{name.split('(')[0]}:wrong-classes", {"route": name, "order": [r[0] for r in routes], "observed": got, "expected": want,
+                              "source": "".join(fam.sources[1:])}, {"scenario": "two-hierarchies"})
     finally:
         fam.dispose()
 
@@ -127,6 +190,8 @@ def run_case(seed, tier, rec, st):
     rng = random.Random(seed)
     if rng.random() < 0.04:
         return format_dialect_entry_points(rng, rec)
+    if rng.random() < 0.02:
+        return two_hierarchies_in_one_field(rng, rec)
     fam = Family("c15", future_annotations=rng.random() < 0.1)
     other = None
     try:
